@@ -1,7 +1,7 @@
 (* C17 -- verdicts depend on type, shape and dtype only, so tracing equals eager.
    Model: model/Trace.v (the check with an access log over objects that also carry element data and a tracer flag).
    What jit / vmap / grad / eval_shape hand to the function is JAX's: validated by the correspondence, not proved. *)
-From JT Require Import model.Trace proofs.TraceFacts.
+From JT Require Import model.Trace proofs.TraceFacts proofs.TraceCallFacts.
 Open Scope string_scope.
 
 Theorem C17_log_refines_the_check : forall flat lbl st a o s,
@@ -22,3 +22,24 @@ Theorem C17_tracer_equals_eager : forall flat lbl st a i at_ d sh data1 data2 s,
   instancecheck_log flat lbl st a (mkobj i at_ d sh data1 true) s = instancecheck_log flat lbl st a (mkobj i at_ d sh data2 false) s.
 Proof. exact tracer_equals_eager. Qed.
 Print Assumptions C17_tracer_equals_eager.
+
+(* the same for a WHOLE decorated call: every annotated argument and the return value checked in turn inside one context
+   (bindings made by an earlier argument constrain the later ones) *)
+Theorem C17_call_log_refines_the_walk : forall lbl st us s, fst (walk_log lbl st us s) = walk lbl st (map observe_use us) s.
+Proof. exact walk_log_refines. Qed.
+Print Assumptions C17_call_log_refines_the_walk.
+
+Theorem C17_call_never_forces_a_value : forall lbl st us s, ~ In AForce (snd (walk_log lbl st us s)).
+Proof. exact walk_never_forces. Qed.
+Print Assumptions C17_call_never_forces_a_value.
+
+Theorem C17_call_value_independent : forall lbl st us1 us2 s,
+  map observe_use us1 = map observe_use us2 -> walk_log lbl st us1 s = walk_log lbl st us2 s.
+Proof. exact walk_value_independent. Qed.
+Print Assumptions C17_call_value_independent.
+
+(* every argument replaced by a tracer of the same aval (what jit, vmap, grad and eval_shape hand over): same verdict, same
+   bindings left in the context, same accesses as the eager call *)
+Theorem C17_traced_call_equals_eager_call : forall lbl st us s, walk_log lbl st (map as_tracer us) s = walk_log lbl st us s.
+Proof. exact traced_call_equals_eager_call. Qed.
+Print Assumptions C17_traced_call_equals_eager_call.
